@@ -123,7 +123,7 @@ def plan(tier):
     shards = [dict(kind='lines', index=i, nshards=nsh, maxlen=maxlen, nhyp=nhyp) for i in range(nsh)]
     try:
         from vf import parseinfo_check  # noqa: F401
-        npi = 60 if tier == 'quick' else 1500
+        npi = 250 if tier == 'quick' else 4000
         shards += [dict(kind='parseinfo', n=npi) for _ in range(16)]
     except ImportError:
         pass
